@@ -5,7 +5,7 @@ verus! {
 //@include shims/uuid.rs
 pub enum OperationError { Backend }
 pub struct Identity { pub o: u8 }
-pub enum EntryClass { Group, Other }
+pub enum EntryClass { Group, DynGroup, Other }
 pub enum PartialValue { Class(EntryClass), Other }
 impl vstd::std_specs::convert::FromSpecImpl<EntryClass> for PartialValue { open spec fn obeys_from_spec() -> bool { true } open spec fn from_spec(v: EntryClass) -> PartialValue { PartialValue::Class(v) } }
 impl From<EntryClass> for PartialValue { fn from(v: EntryClass) -> (r: PartialValue) { PartialValue::Class(v) } }
@@ -28,17 +28,27 @@ pub struct EntrySealedCommitted { pub o: int }
 impl EntrySealedCommitted {
     pub uninterp spec fn uuid(&self) -> Uuid;
     pub uninterp spec fn is_group(&self) -> bool;
+    pub uninterp spec fn is_dyngroup(&self) -> bool;
     pub uninterp spec fn live(&self) -> bool;
     pub uninterp spec fn members(&self) -> Set<Uuid>;
     pub uninterp spec fn dynmembers(&self) -> Set<Uuid>;
     #[verifier::external_body] pub fn get_uuid(&self) -> (r: Uuid) ensures r == self.uuid() { unimplemented!() }
     #[verifier::external_body] pub fn attribute_equality(&self, a: Attribute, v: &PartialValue) -> (r: bool)
-        ensures (a is Class && *v == PartialValue::Class(EntryClass::Group)) ==> r == self.is_group() { unimplemented!() }
+        ensures (a is Class && *v == PartialValue::Class(EntryClass::Group)) ==> r == self.is_group(),
+                (a is Class && *v == PartialValue::Class(EntryClass::DynGroup)) ==> r == self.is_dyngroup() { unimplemented!() }
+    // get_ava_as_refuuid(a): an iterator over the uuids that attribute refers to, None when the attribute is absent
+    #[verifier::external_body] pub fn get_ava_as_refuuid(&self, a: Attribute) -> (r: Option<KvxRefIter>)
+        ensures a is Member ==> iter_is(r, self.members()), a is DynMember ==> iter_is(r, self.dynmembers()) { unimplemented!() }
     #[verifier::external_body] pub fn mask_recycled_ts(&self) -> (r: Option<&EntrySealedCommitted>) ensures r is Some == self.live() { unimplemented!() }
     #[verifier::external_body] pub fn get_ava_refer(&self, a: Attribute) -> (r: Option<&BTreeSet<Uuid>>)
         ensures a is Member ==> ((r matches Some(s) ==> s@ == self.members()) && (r is None ==> self.members() =~= Set::<Uuid>::empty())),
                 a is DynMember ==> ((r matches Some(s) ==> s@ == self.dynmembers()) && (r is None ==> self.dynmembers() =~= Set::<Uuid>::empty())) { unimplemented!() }
 }
+#[verifier::external_body] pub struct KvxRefIter { p: u8 }
+impl KvxRefIter { pub uninterp spec fn set(&self) -> Set<Uuid>; }
+pub open spec fn iter_is(r: Option<KvxRefIter>, s: Set<Uuid>) -> bool { (r matches Some(it) ==> it.set() == s) && (r is None ==> s =~= Set::<Uuid>::empty()) }
+// the answer yields at least the uuids of s (more is harmless: more entries are re-evaluated)
+pub open spec fn iter_covers(r: Option<KvxRefIter>, s: Set<Uuid>) -> bool { (r matches Some(it) ==> s.subset_of(it.set())) && (r is None ==> s =~= Set::<Uuid>::empty()) }
 pub struct Arc<T> { pub v: T }
 impl Arc<EntrySealedCommitted> {
     pub fn attribute_equality(&self, a: Attribute, v: &PartialValue) -> (r: bool) ensures (a is Class && *v == PartialValue::Class(EntryClass::Group)) ==> r == self.v.is_group() { self.v.attribute_equality(a, v) }
@@ -74,10 +84,33 @@ pub open spec fn pair_in(v: Seq<(&Arc<EntrySealedCommitted>, &EntrySealedCommitt
 // before / after entries: the call must show that the affected set covers every effective membership change
 #[verifier::external_body] pub fn apply_memberof(qs: &mut QueryServerWriteTransaction, affected: BTreeSet<Uuid>, Ghost(pre): Ghost<Seq<Arc<EntrySealedCommitted>>>, Ghost(post): Ghost<Seq<EntrySealedCommitted>>) -> (r: Result<(), OperationError>)
     requires affected_ok(pre, post, affected@) { unimplemented!() }
+// ---- delete: a deleted group no longer gives its members anything, so every member and dynamic member of a deleted (dyn) group is affected ----
+pub open spec fn deleted_ok(cand: Seq<EntrySealedCommitted>, affected: Set<Uuid>) -> bool {
+    forall|i: int| 0 <= i < cand.len() ==> ((#[trigger] cand[i]).is_group() ==> cand[i].members().subset_of(affected)) && (cand[i].is_dyngroup() ==> cand[i].dynmembers().subset_of(affected))
+}
+// what the two filter_map closures answered for each deleted entry (pure functions: some answer exists and satisfies the step's contract)
+pub uninterp spec fn ran_grp(s: Seq<EntrySealedCommitted>) -> Seq<Option<KvxRefIter>>;
+pub uninterp spec fn ran_dyn(s: Seq<EntrySealedCommitted>) -> Seq<Option<KvxRefIter>>;
+// `cand.iter().filter_map(del_group_step).flatten().chain(cand.iter().filter_map(del_dyn_step).flatten()).collect()`: every uuid of
+// every iterator either closure answered (std: filter_map / flatten / chain / collect)
+#[verifier::external_body] pub fn kvx_delete_affected(cand: &[EntrySealedCommitted]) -> (r: BTreeSet<Uuid>)
+    ensures ran_grp(cand@).len() == cand@.len(), ran_dyn(cand@).len() == cand@.len(),
+            forall|i: int| #![trigger ran_grp(cand@)[i]] 0 <= i < cand@.len() ==> call_ensures(del_group_step, (&cand@[i],), ran_grp(cand@)[i]) && (ran_grp(cand@)[i] matches Some(it) ==> it.set().subset_of(r@)),
+            forall|i: int| #![trigger ran_dyn(cand@)[i]] 0 <= i < cand@.len() ==> call_ensures(del_dyn_step, (&cand@[i],), ran_dyn(cand@)[i]) && (ran_dyn(cand@)[i] matches Some(it) ==> it.set().subset_of(r@)) { unimplemented!() }
+// the single-pass shape (one closure for both kinds; contract variant): every uuid of every iterator that closure answered
+#[verifier::external_body] pub fn kvx_delete_affected_one(cand: &[EntrySealedCommitted]) -> (r: BTreeSet<Uuid>)
+    ensures ran_grp(cand@).len() == cand@.len(),
+            forall|i: int| #![trigger ran_grp(cand@)[i]] 0 <= i < cand@.len() ==> call_ensures(del_group_step, (&cand@[i],), ran_grp(cand@)[i]) && (ran_grp(cand@)[i] matches Some(it) ==> it.set().subset_of(r@)) { unimplemented!() }
+#[verifier::external_body] pub fn apply_memberof_deleted(qs: &mut QueryServerWriteTransaction, affected: BTreeSet<Uuid>, Ghost(cand): Ghost<Seq<EntrySealedCommitted>>) -> (r: Result<(), OperationError>)
+    requires deleted_ok(cand, affected@) { unimplemented!() }
+pub struct DeleteEvent { pub o: u8 }
 //@extract group_pair_step
+//@extract del_group_step
+//@extract del_dyn_step
 pub struct MemberOf;
 impl MemberOf {
 //@extract post_modify_inner
+//@extract post_delete
 }
 }
 fn main(){}
